@@ -22,12 +22,23 @@ func scenarios(thorough bool) []poolh.Params {
 		{Max: 1, Callers: 2, CallsEach: 1, Env: []string{"kill:1"}, Probe: true},
 		{Max: 1, Callers: 2, CallsEach: 1, SlowReady: true, Env: []string{"cancel:1", "kill:1"}, Probe: true},
 		{Max: 2, Callers: 3, CallsEach: 1, Env: []string{"cancel:3"}, Probe: true},
+		// how a use ends: non-retryable failure on a healthy connection; caller gives up while its request is in flight
+		{Max: 1, Callers: 2, CallsEach: 1, UseErr: "app:1", Probe: true},
+		{Max: 1, Callers: 2, CallsEach: 1, Env: []string{"cancel:1"}, UseErr: "ctx", Probe: true},
+		// a death of an idle connection next to another idle one (free list of length 2, either position)
+		{Max: 2, Callers: 2, CallsEach: 1, Env: []string{"kill:2"}, Probe: true},
 	}
 	if thorough {
 		s = append(s,
 			poolh.Params{Max: 1, Callers: 3, CallsEach: 1, Env: []string{"cancel:2", "kill:1"}, Probe: true},
 			poolh.Params{Max: 2, Callers: 3, CallsEach: 2, Env: []string{"cancel:1", "kill:2"}, Probe: true},
 			poolh.Params{Max: 2, Callers: 3, CallsEach: 1, SlowReady: true, Env: []string{"cancel:1", "cancel:2"}, Probe: true},
+			// a death with three parties: a waiter, and a later caller who creates the replacement and hands it over
+			poolh.Params{Max: 1, Callers: 3, CallsEach: 1, Env: []string{"kill:1"}, Probe: true},
+			poolh.Params{Max: 2, Callers: 3, CallsEach: 1, Env: []string{"kill:1"}, Probe: true},
+			poolh.Params{Max: 3, Callers: 3, CallsEach: 1, Env: []string{"kill:2"}, Probe: true},
+			poolh.Params{Max: 2, Callers: 3, CallsEach: 1, Env: []string{"cancel:2"}, UseErr: "ctx", Probe: true},
+			poolh.Params{Max: 1, Callers: 2, CallsEach: 2, UseErr: "app:2", Probe: true},
 		)
 	}
 	return s
@@ -47,7 +58,8 @@ func main() {
 		}
 		bound := 2
 		c.Rule("real pool.DC (instrumented pool + tdsync) over fake connections (Run until killed, Invoke yields while in use), max 1-2, 2-3 callers x 1-2 "+
-			"calls, environment {kill n-th connection, cancel caller, delayed readiness}; every schedule with <= %d preemptions/deviations; oracle: at "+
+			"calls, environment {kill n-th connection (also an idle one next to another idle one, max 2), cancel caller, delayed readiness} x how a use ends {answer; ctx.Err() "+
+			"when the caller gave up in flight; non-retryable failure of the n-th use on a healthy connection}; every schedule with <= %d preemptions/deviations; oracle: at "+
 			"quiescence (callers and environment done) an in-package dump must show every live connection exactly once in the free list, the pool's count equal "+
 			"to the number of live connections and no registered waiter; then a fresh uncancelled probe Invoke must be served (otherwise the execution deadlocks).", bound)
 		c.Assume("private pool state is read by an overlay-added in-package accessor at quiescence only")
